@@ -289,6 +289,17 @@ func c05OutCase(run *ev.Run, r *rand.Rand, reg *svc.Registry, lb *wire.Loopback,
 		if len(d.Messages) != 0 {
 			bad("send-failure-message", "a message that could not be marshalled appears on the wire")
 		}
+		// metadata the handler had set by then: whatever of it the failed
+		// response still carries is carried as set (not doubled, not mixed)
+		for _, set := range []http.Header{respH, respT} {
+			for k, want := range set {
+				got := append(append([]string{}, d.Header.Values(k)...), d.Trailer.Values(k)...)
+				if len(got) != 0 && !sameList(got, want) {
+					bad("send-failure-metadata", fmt.Sprintf("%q = %q on the wire of a response whose message could not be marshalled, handler set %q", k, got, want))
+					return
+				}
+			}
+		}
 		return
 	}
 	wantCT := rq.Get("Content-Type")
@@ -434,7 +445,9 @@ func c05InRespCase(run *ev.Run, r *rand.Rand, protocol, codec string, kind svc.K
 	}
 	failing := r.Intn(3) == 0
 	code := uint32(1 + r.Intn(16))
-	texts := []string{"", "plain text", "café 日本", "100% sure", "a\nb", "inner  blanks"}
+	texts := []string{"", "plain text", "café 日本", "100% sure", "a\nb", "inner  blanks",
+		// the only byte that needs escaping is the last one / the first one
+		"line ends here\n", "completely 100%", "\ttabbed", "%"}
 	message := texts[r.Intn(len(texts))]
 	var details []refcodec.Any
 	if failing && r.Intn(2) == 0 {
